@@ -736,5 +736,212 @@ theorem locate_spec (lens : List Nat) {m : Nat} (hm : m < lens.sum) :
       simp only [offset, List.take_succ_cons, List.sum_cons] at h3 ⊢
       omega
 
+/-! ### indexing / assignment on the last axis -/
+
+theorem dropLast_snoc {β : Type} (l : List β) (x : β) : (l ++ [x]).dropLast = l := by simp
+theorem getLastD_snoc (l : List Nat) (x d : Nat) : (l ++ [x]).getLastD d = x := by simp
+
+theorem shape_selectLast (a : ND α) {s : List Nat} {m : Nat} (hs : a.shape = s ++ [m]) (j : Nat) :
+    (a.selectLast j).shape = s := by simp [selectLast, hs]
+
+/-- `a[..., j][i] = a[i, j]` -/
+theorem get_selectLast (a : ND α) {s i : List Nat} {m : Nat} (hs : a.shape = s ++ [m]) (j : Nat)
+    (hi : Valid s i) : (a.selectLast j).get i = a.get (i ++ [j]) := by
+  unfold selectLast
+  rw [get_ofFn _ _ (by simpa [hs] using hi)]
+
+theorem shape_sliceLast (a : ND α) {s : List Nat} {m : Nat} (hs : a.shape = s ++ [m]) (lo hi : Nat) :
+    (a.sliceLast lo hi).shape = s ++ [hi - lo] := by simp [sliceLast, hs]
+
+/-- `a[..., lo:hi][i, c] = a[i, lo + c]` -/
+theorem get_sliceLast (a : ND α) {s i : List Nat} {m : Nat} (hs : a.shape = s ++ [m]) (lo hi : Nat)
+    (hi' : Valid s i) {c : Nat} (hc : c < hi - lo) :
+    (a.sliceLast lo hi).get (i ++ [c]) = a.get (i ++ [c + lo]) := by
+  unfold sliceLast
+  rw [get_ofFn _ _ (by rw [hs, dropLast_snoc]; exact hi'.append (by simpa using hc))]
+  simp
+
+theorem shape_deleteLast (a : ND α) {s : List Nat} {m : Nat} (hs : a.shape = s ++ [m]) (c : Nat) :
+    (a.deleteLast c).shape = s ++ [m - 1] := by simp [deleteLast, hs]
+
+/-- `np.delete(a, c, -1)[i, j] = a[i, j]` for `j < c`, `a[i, j+1]` otherwise -/
+theorem get_deleteLast (a : ND α) {s i : List Nat} {m : Nat} (hs : a.shape = s ++ [m]) (c : Nat)
+    (hi : Valid s i) {j : Nat} (hj : j < m - 1) :
+    (a.deleteLast c).get (i ++ [j]) = a.get (i ++ [if j < c then j else j + 1]) := by
+  unfold deleteLast
+  rw [get_ofFn _ _ (by rw [hs, dropLast_snoc, getLastD_snoc]; exact hi.append (by simpa using hj))]
+  simp
+
+theorem get_full (s : List Nat) (x : α) {ix : List Nat} (h : Valid s ix) : (full s x).get ix = x := by
+  unfold full; rw [get_ofFn _ _ h]
+
+theorem get_setLastConst (out : ND α) {s i : List Nat} {m : Nat} (hs : out.shape = s ++ [m]) (j : Nat) (x : α)
+    (hi : Valid s i) {c : Nat} (hc : c < m) :
+    (out.setLastConst j x).get (i ++ [c]) = if c = j then x else out.get (i ++ [c]) := by
+  unfold setLastConst
+  rw [get_ofFn _ _ (by rw [hs]; exact hi.append (by simpa using hc))]
+  simp
+
+theorem get_setLastIndex (out v : ND α) {s i : List Nat} {m : Nat} (hs : out.shape = s ++ [m]) (j : Nat)
+    (hi : Valid s i) {c : Nat} (hc : c < m) :
+    (out.setLastIndex j v).get (i ++ [c]) = if c = j then v.get i else out.get (i ++ [c]) := by
+  unfold setLastIndex
+  rw [get_ofFn _ _ (by rw [hs]; exact hi.append (by simpa using hc))]
+  simp
+
+theorem get_setLastSlice (out v : ND α) {s i : List Nat} {m : Nat} (hs : out.shape = s ++ [m]) (lo hi : Nat)
+    (hi' : Valid s i) {c : Nat} (hc : c < m) :
+    (out.setLastSlice lo hi v).get (i ++ [c]) =
+      if lo ≤ c ∧ c < hi then v.get (i ++ [c - lo]) else out.get (i ++ [c]) := by
+  unfold setLastSlice
+  rw [get_ofFn _ _ (by rw [hs]; exact hi'.append (by simpa using hc))]
+  simp
+
+theorem get_setLastIdx (out v : ND α) {s i : List Nat} {m : Nat} (hs : out.shape = s ++ [m]) (idx : List Nat)
+    (hi : Valid s i) {c : Nat} (hc : c < m) :
+    (out.setLastIdx idx v).get (i ++ [c]) =
+      if idx.idxOf c < idx.length then v.get (i ++ [idx.idxOf c]) else out.get (i ++ [c]) := by
+  unfold setLastIdx
+  rw [get_ofFn _ _ (by rw [hs]; exact hi.append (by simpa using hc))]
+  simp
+
+/-! ### entrywise arithmetic on arrays of one shape, and `x[..., newaxis]` broadcasting -/
+
+theorem bcastShape_self' (o : List Nat) : bcastShape o o = some o := by
+  rw [bcastShape_same_length rfl, bcastZip_self]
+
+/-- `f(a, b)` entrywise for two arrays of the same shape (any binary ufunc): no broadcasting happens -/
+theorem zipBcast_same {β γ : Type} [Inhabited β] [Inhabited γ] (f : α → β → γ) (a : ND α) (b : ND β)
+    {s : List Nat} (ha : a.shape = s) (hb : b.shape = s) :
+    ∃ c, zipBcast f a b = .ok c ∧ c.shape = s ∧ c.WF ∧
+      ∀ ix, Valid s ix → c.get ix = f (a.get ix) (b.get ix) := by
+  unfold zipBcast
+  rw [ha, hb, bcastShape_self']
+  refine ⟨_, rfl, rfl, wf_ofFn _ _, fun ix hix => ?_⟩
+  rw [get_ofFn _ _ hix, bcIx_self hix]
+
+/-- `f(a, d[..., newaxis])`: every vector of `a` (last axis) against the scalar of `d` at the same
+outer index -/
+theorem zipBcast_lastcol {β γ : Type} [Inhabited β] [Inhabited γ] (f : α → β → γ) (a : ND α) (d : ND β)
+    {o : List Nat} {m : Nat} (ha : a.shape = o ++ [m]) (hd : d.shape = o) :
+    ∃ c, zipBcast f a (d.expandRange d.rank 1) = .ok c ∧ c.shape = o ++ [m] ∧ c.WF ∧
+      ∀ i j, Valid o i → j < m → c.get (i ++ [j]) = f (a.get (i ++ [j])) (d.get i) := by
+  have hrank : d.rank = o.length := by simp [ND.rank, hd]
+  have hd' : d.shape = o ++ [] := by simpa using hd
+  have hds := shape_expandRange d hd' 1
+  rw [hrank]
+  have hb : bcastShape a.shape (d.expandRange o.length 1).shape = some (o ++ [m]) := by
+    rw [ha, hds]
+    simp only [List.append_nil, List.replicate_one]
+    rw [bcastShape_same_length (by simp), bcastZip_append rfl, bcastZip_self]
+    simp [bcastZip]
+  unfold zipBcast
+  rw [hb]
+  refine ⟨_, rfl, rfl, wf_ofFn _ _, fun i j hi hj => ?_⟩
+  have hv : Valid (o ++ [m]) (i ++ [j]) := hi.append (by simpa using hj)
+  rw [get_ofFn _ _ hv, ha, hds]
+  simp only [List.append_nil, List.replicate_one]
+  rw [bcIx_self hv, bcIx_append (by simp [hi.length]) (by simp), bcIx_self hi]
+  have : bcIx [1] [j] = [0] := by simp [bcIx]
+  rw [this]
+  have := get_expandRange d hd' 1 (i := i) (j := []) hi (by simp)
+  simp only [List.replicate_one, List.append_nil] at this
+  rw [this]
+
+theorem get_map_wf {β : Type} [Inhabited β] (g : α → β) (a : ND α) (hwf : a.WF) {ix : List Nat}
+    (hix : Valid a.shape ix) : (a.map g).get ix = g (a.get ix) := by
+  have hlt : flatIx a.shape ix < a.data.size := by rw [hwf]; exact flatIx_lt hix
+  simp [ND.get, ND.map, Array.getD, hlt]
+
+theorem wf_map {β : Type} (g : α → β) (a : ND α) (hwf : a.WF) : (a.map g).WF := by
+  simpa [ND.WF, ND.map] using hwf
+
+/-- `np.stack([a₀, a₁, …], axis=-1)`: a new trailing axis indexed by the position in the list -/
+theorem stackLast_spec (a : ND α) (rest : List (ND α)) (h : ∀ b ∈ rest, b.shape = a.shape) :
+    ∃ c, stack (a :: rest) a.shape.length = .ok c ∧ c.shape = a.shape ++ [rest.length + 1] ∧
+      ∀ i k, Valid a.shape i → k < rest.length + 1 → c.get (i ++ [k]) = ((a :: rest).getD k a).get i := by
+  unfold stack
+  have hall : rest.all (fun b => b.shape == a.shape) = true := by
+    simp only [List.all_eq_true, beq_iff_eq]; exact h
+  simp only [hall, if_true]
+  have hsh : a.shape.insertIdx a.shape.length ((a :: rest).length) = a.shape ++ [rest.length + 1] := by
+    have := insertIdx_length_append a.shape [] ((a :: rest).length)
+    simpa using this
+  refine ⟨_, rfl, by rw [shape_ofFn, hsh], ?_⟩
+  intro i k hi hk
+  rw [get_ofFn _ _ (by rw [hsh]; exact hi.append (by simpa using hk))]
+  have e1 : (i ++ [k]).getD a.shape.length 0 = k := by
+    simp [List.getD_eq_getElem?_getD, List.getElem?_append_right, hi.length]
+  have e2 : (i ++ [k]).eraseIdx a.shape.length = i := by
+    rw [List.eraseIdx_append_of_length_le (by simp [hi.length])]; simp [hi.length]
+  rw [e1, e2]
+
+/-! ### the last two axes: `a.swapaxes(-1,-2)`, `a[..., k, :]`, `np.stack([a, b], axis=-2)` -/
+
+theorem swapPos_last2 (o : List Nat) (p q : Nat) :
+    swapPos (o ++ [p, q]) (o.length + 1) o.length = o ++ [q, p] := by
+  unfold swapPos
+  have h1 : (o ++ [p, q]).getD o.length default = p := by simp [List.getD_eq_getElem?_getD]
+  have h2 : (o ++ [p, q]).getD (o.length + 1) default = q := by
+    simp [List.getD_eq_getElem?_getD, List.getElem?_append_right]
+  rw [h1, h2]
+  rw [List.set_append_right _ _ (by omega)]
+  simp only [Nat.add_sub_cancel_left, List.set_cons_succ, List.set_cons_zero]
+  rw [List.set_append_right _ _ (by omega)]
+  simp
+
+theorem shape_swapLast2 (a : ND α) {o : List Nat} {p q : Nat} (hs : a.shape = o ++ [p, q]) :
+    (a.swapaxes (a.rank - 1) (a.rank - 2)).shape = o ++ [q, p] := by
+  have hr : a.rank = o.length + 2 := by simp [ND.rank, hs]
+  simp only [swapaxes, shape_ofFn, hr, hs]
+  exact swapPos_last2 o p q
+
+theorem get_swapLast2 (a : ND α) {o i : List Nat} {p q : Nat} (hs : a.shape = o ++ [p, q]) (hi : Valid o i)
+    {x y : Nat} (hx : x < q) (hy : y < p) :
+    (a.swapaxes (a.rank - 1) (a.rank - 2)).get (i ++ [x, y]) = a.get (i ++ [y, x]) := by
+  have hr : a.rank = o.length + 2 := by simp [ND.rank, hs]
+  unfold swapaxes
+  rw [get_ofFn]
+  · rw [hr]
+    have := swapPos_last2 i x y
+    rw [hi.length] at this
+    simpa using congrArg a.get this
+  · rw [hr, hs]
+    simp only [Nat.add_sub_cancel, show o.length + 2 - 2 = o.length from rfl, show o.length + 2 - 1 = o.length + 1 from rfl]
+    rw [swapPos_last2]
+    exact hi.append (by simp [hx, hy])
+
+theorem shape_selectRow (a : ND α) {o : List Nat} {p q : Nat} (hs : a.shape = o ++ [p, q]) (k : Nat) :
+    (a.selectAxis o.length k).shape = o ++ [q] := by
+  simp [selectAxis, hs, List.eraseIdx_append_of_length_le]
+
+/-- `a[..., k, :]` -/
+theorem get_selectRow (a : ND α) {o i : List Nat} {p q : Nat} (hs : a.shape = o ++ [p, q]) (k : Nat)
+    (hi : Valid o i) {c : Nat} (hc : c < q) :
+    (a.selectAxis o.length k).get (i ++ [c]) = a.get (i ++ [k, c]) := by
+  unfold selectAxis
+  rw [get_ofFn]
+  · rw [← hi.length, insertIdx_length_append]
+  · rw [hs, List.eraseIdx_append_of_length_le (le_refl _)]
+    simpa using hi.append (by simpa using hc : Valid [q] [c])
+
+/-- `np.stack([a, b], axis=-2)` of two arrays of vectors: unit `i` is the 2-row matrix `[a[i], b[i]]` -/
+theorem stackRows2_spec (a b : ND α) {o : List Nat} {q : Nat} (ha : a.shape = o ++ [q]) (hb : b.shape = o ++ [q]) :
+    ∃ c, stack [a, b] o.length = .ok c ∧ c.shape = o ++ [2, q] ∧
+      ∀ i e cc, Valid o i → e < 2 → cc < q → c.get (i ++ [e, cc]) = ([a, b].getD e a).get (i ++ [cc]) := by
+  unfold stack
+  have hall : [b].all (fun x => x.shape == a.shape) = true := by simp [ha, hb]
+  simp only [hall, if_true]
+  have hsh : a.shape.insertIdx o.length ([a, b].length) = o ++ [2, q] := by
+    rw [ha, insertIdx_length_append]; rfl
+  refine ⟨_, rfl, by rw [shape_ofFn, hsh], ?_⟩
+  intro i e cc hi he hcc
+  rw [get_ofFn _ _ (by rw [hsh]; exact hi.append (by simp [he, hcc]))]
+  have e1 : (i ++ [e, cc]).getD o.length 0 = e := by
+    simp [List.getD_eq_getElem?_getD, List.getElem?_append_right, hi.length]
+  have e2 : (i ++ [e, cc]).eraseIdx o.length = i ++ [cc] := by
+    rw [List.eraseIdx_append_of_length_le (by simp [hi.length])]; simp [hi.length]
+  rw [e1, e2]
+
 end ND
 end GT.Act
